@@ -387,6 +387,15 @@ def run(ctx):
             a, b = dfp_wsea_ref(w, f, DT), float(tracking.dfp_wsea(w, f, DT))
             if abs(a - b) > 1e-9:
                 ctx.violation({"where": "replay", "fn": "dfp_wsea"}, "dfp_wsea differs from the published closed form", {"w": w, "f": f, "ref": a, "impl": b})
+            # the scaling multiplies the predicted peak frequency (not the change): scaling * f_pred - fp
+            for sc in (0.5, 1.05, 4.0):
+                ctx.case(("dfp_wsea", w, f, sc), True)
+                a, b = dfp_wsea_ref(w, f, DT, sc), float(tracking.dfp_wsea(w, f, DT, scaling=sc))
+                if abs(a - b) > 1e-9:
+                    ctx.violation({"where": "replay", "fn": "dfp_wsea", "scaling": sc}, "dfp_wsea(scaling=%g) differs from the closed form scaling*f_pred - fp" % sc,
+                                  {"w": w, "f": f, "ref": a, "impl": b})
+                else:
+                    ctx.replayed()
     ctx.assume("thresholds handed to the implementation are off the lattice; |sea threshold| < swell threshold (normalisation = swell threshold)")
     ctx.assume("exact distance ties are nondeterministic in the spec; such behaviours are validated by TrackingTrace instead of by equality")
     ctx.assume("ptm1_track is covered only through track_partitions (its statistics come from real spectra and are off the lattice)")
